@@ -799,7 +799,7 @@ fn part_x(bitflips: bool) -> TamperOut {
             out.machinery.get_or_insert("verify() fails after restoring the original blocks".into());
         }
     };
-    let mut report = |out: &mut TamperOut, sig: String, what: String, replay: serde_json::Value| {
+    let report = |out: &mut TamperOut, sig: String, what: String, replay: serde_json::Value| {
         out.undetected += 1;
         if out.violations.iter().filter(|x| x.0 == sig).count() < 3 {
             out.violations.push((sig, format!("verify() still succeeds after: {what}"), replay));
